@@ -21,6 +21,9 @@ pub struct Case {
     pub file_a: bool,
     pub file_b: bool,
     pub config: Option<(usize, usize)>,
+    /// entries of other documents held by the same stores: (in A's store?, namespace slot, entry)
+    #[serde(default)]
+    pub others: Vec<(bool, u8, EGen)>,
 }
 
 impl Prop for C01 {
@@ -49,8 +52,9 @@ impl Prop for C01 {
             prop::bool::weighted(0.15),
             prop::bool::weighted(0.15),
             sync_config(),
+            prop_oneof![2 => Just(vec![]), 1 => vec((any::<bool>(), 0u8..6, egen()), 1..=6)],
         )
-            .prop_map(|(pools, a, b, file_a, file_b, config)| Case { pools, a, b, file_a, file_b, config })
+            .prop_map(|(pools, a, b, file_a, file_b, config, others)| Case { pools, a, b, file_a, file_b, config, others })
             .boxed()
     }
 
@@ -132,6 +136,31 @@ fn check(ctx: &mut Ctx, c: &Case, o: &mut Outcome) -> R<()> {
         if initiator_is_a {
             classify(o, &ma, &mb);
         }
+        // unrelated documents in the same stores (different on each side) must neither leak into the session nor change
+        let mut other_ids = vec![];
+        let mut groups: std::collections::BTreeMap<(bool, u8), Vec<SignedEntry>> = Default::default();
+        for (side_a, slot, e) in &c.others {
+            let slot = *slot % N_NAMESPACES as u8;
+            if slot == c.pools.ns % N_NAMESPACES as u8 {
+                continue;
+            }
+            groups.entry((*side_a, slot)).or_default().push(sign(namespace(slot), &to_espec(e, &authors, &keys)));
+        }
+        for ((side_a, slot), entries) in &groups {
+            let other = namespace(*slot);
+            let st = if *side_a { &mut sa.store } else { &mut sb.store };
+            populate(&ctx.rt, st, other, entries)?;
+            if !other_ids.contains(&other.id()) {
+                other_ids.push(other.id());
+            }
+        }
+        if !other_ids.is_empty() {
+            o.class("other-documents-in-the-stores");
+        }
+        let mut others_before = vec![];
+        for id in &other_ids {
+            others_before.push((dump(&mut sa.store, *id)?, dump(&mut sb.store, *id)?));
+        }
         // the starting states are reachable replica states: take them from the stores themselves
         let da = dump(&mut sa.store, ns)?;
         let db = dump(&mut sb.store, ns)?;
@@ -183,6 +212,11 @@ fn check(ctx: &mut Ctx, c: &Case, o: &mut Outcome) -> R<()> {
         for (s, n) in [(&mut sa.store, "A"), (&mut sb.store, "B")] {
             if let Err(e) = self_consistent(s, ns) {
                 o.fail("C01/consistency", format!("{n} after the session: {e}; {}", ctxs()));
+            }
+        }
+        for (id, before) in other_ids.iter().zip(others_before.iter()) {
+            if (dump(&mut sa.store, *id)?, dump(&mut sb.store, *id)?) != *before {
+                o.fail("C01/other-document-changed", format!("a session of document {} changed document {}; {}", ns, id, ctxs()));
             }
         }
         if o.failed() {
